@@ -58,12 +58,14 @@ Spec == Init /\ [][Next]_vars
 Emit == fin => PrintT(<<"EMIT", ToJson([steps |-> steps])>>)
 DesignView == <<memCache, dirCache, Len(steps), fin>>
 
-AllPoints == [capFromMax : BOOLEAN, allocator : BOOLEAN, nodebug : BOOLEAN, custom : BOOLEAN,
+(* allocator: "guard" reserves the maximum and exposes exactly the current size; "spare" hands out slices of a pre-dirtied
+   slab with spare capacity and cleans a range only when it is asked to (Reallocate) *)
+AllPoints == [capFromMax : BOOLEAN, allocator : {"none", "guard", "spare"}, nodebug : BOOLEAN, custom : BOOLEAN,
               listeners : {"none", "recording", "nilfactory"}, closeOnDone : BOOLEAN]
-Bottom == [capFromMax |-> FALSE, allocator |-> FALSE, nodebug |-> FALSE, custom |-> FALSE, listeners |-> "none", closeOnDone |-> FALSE]
+Bottom == [capFromMax |-> FALSE, allocator |-> "none", nodebug |-> FALSE, custom |-> FALSE, listeners |-> "none", closeOnDone |-> FALSE]
 (* one dimension at a time from the bottom, plus the top *)
-OneDim == {Bottom} \cup {[Bottom EXCEPT !.capFromMax = TRUE], [Bottom EXCEPT !.allocator = TRUE], [Bottom EXCEPT !.nodebug = TRUE],
+OneDim == {Bottom} \cup {[Bottom EXCEPT !.capFromMax = TRUE], [Bottom EXCEPT !.allocator = "guard"], [Bottom EXCEPT !.allocator = "spare"], [Bottom EXCEPT !.nodebug = TRUE],
            [Bottom EXCEPT !.custom = TRUE], [Bottom EXCEPT !.listeners = "recording"], [Bottom EXCEPT !.listeners = "nilfactory"],
            [Bottom EXCEPT !.closeOnDone = TRUE],
-           [capFromMax |-> TRUE, allocator |-> TRUE, nodebug |-> TRUE, custom |-> TRUE, listeners |-> "recording", closeOnDone |-> TRUE]}
+           [capFromMax |-> TRUE, allocator |-> "spare", nodebug |-> TRUE, custom |-> TRUE, listeners |-> "recording", closeOnDone |-> TRUE]}
 =============================================================================
